@@ -163,10 +163,14 @@ def run_diffpath(task):
         path = tuple(I.fresh_byte('t%d' % i, PATH_ALPHABET) for i in range(plen))
         holder['path'] = path
         target = (tuple(b'b/') if with_prefix else ()) + path
+        if removed is True:
+            target = tuple(b'/dev/null')        # how git names the new side of a deleted file
         holder['target'] = target
 
         def from_str_stub(I2, a, ci, dt):
             if removed:
+                # `@@ -1 +0,0 @@`: a deleted file - or (removed == 'top') an existing file whose first line
+                # was deleted, as `git diff -U0` writes it: that file is still named in the diff
                 hunk = mk_hunk(I2, 1, 1, 0, 0, [mk_line(I2, b'-', 1, None)])
             else:
                 hunk = mk_hunk(I2, 0, 0, 1, 1, [mk_line(I2, b'+', None, 1)])
@@ -192,7 +196,7 @@ def run_diffpath(task):
             m = I.solver.model()
             out['violations'].append(dict(role=role, summary=summary,
                                           target=model_bytes(m, holder['target']).decode('latin1'),
-                                          key=holder.get('key')))
+                                          key=holder.get('key'), top_deletion=(removed == 'top')))
 
     for I, kind, val in explore(prog, models.M, run_path, stats=stats, max_paths=100000):
         if kind == 'panic':
@@ -202,13 +206,16 @@ def run_diffpath(task):
             viol(I, z3.BoolVal(True), 'unexpected-error', 'line_changes_from_diff returned Err')
             continue
         ents = val.f[0].entries
-        if removed:
+        if removed is True:
             if ents:
                 viol(I, z3.BoolVal(True), 'removed-file-listed', 'a deleted file contributes line changes')
             out['cover']['removed'] = 1
             continue
+        if removed == 'top':
+            out['cover']['first line deleted (-U0)'] = 1
         if len(ents) != 1:
-            viol(I, z3.BoolVal(True), 'diff-file-lost', 'diff names one file, map has %d' % len(ents))
+            viol(I, z3.BoolVal(True), 'diff-file-lost' + ('-first-line-deleted' if removed == 'top' else ''),
+                 'diff names one file, map has %d' % len(ents))
             continue
         key = ents[0].f[0].b
         path = holder['path']
@@ -374,6 +381,26 @@ def confirm(binary, v, idx):
         rel = tgt[2:]
         if rel.startswith('/') or any(seg in ('', '.', '..') for seg in rel.split('/')):
             return v
+        if v.get('top_deletion'):
+            # the file's first line (its start tag) was deleted: the diff names the file, so it is examined and
+            # its stray end tag fails the run
+            body = b'x = 1\n# </block>\n'
+            diff = 'diff --git a/%s.py %s.py\n--- a/%s.py\n+++ %s.py\n@@ -1 +0,0 @@\n-# <block name="k">\n' % (rel, tgt, rel, tgt)
+            d = scratch_dir('c15t')
+            try:
+                git_init(d)
+                p = os.path.join(d, rel + '.py')
+                os.makedirs(os.path.dirname(p), exist_ok=True)
+                open(p, 'wb').write(body)
+                r = run_blockwatch(binary, d, ['list'], stdin=diff.encode())
+            finally:
+                shutil.rmtree(d, ignore_errors=True)
+            v['observed'] = dict(code=r['code'], stderr=r['stderr'][-200:], stdout=r['stdout'][-200:])
+            if r['code'] == 0:
+                v['confirmed'] = True
+                v['replay'] = save_replay(PROP, '%s-%d' % (v['role'], idx), {rel + '.py': body, 'input.diff': diff.encode()},
+                                          'list', 'expected a failed run naming %s.py (stray end tag); %s' % (rel, v['summary']), v, stdin_file='input.diff')
+            return v
         d = scratch_dir('c15p')
         try:
             git_init(d)
@@ -436,6 +463,8 @@ def main(tier):
         dtasks.append((L, True, False, True))
         dtasks.append((L, False, False, False))
     dtasks.append((3, True, True, False))
+    dtasks.append((3, True, 'top', False))
+    dtasks.append((5, True, 'top', False))
     results += pmap(run_diffpath, dtasks)
     results += pmap(run_difforder, list(itertools.permutations(range(3))))
     # the repository root, the directory walk and the file reads (FileSystemImpl on environment stubs)
@@ -543,7 +572,7 @@ def main(tier):
                      'targets without the b/ prefix whose own first component is `b` are outside the claim'],
         stubs=['FileSystem::walk', 'FileSystem::read_to_string', 'PathChecker::should_allow', 'PathChecker::should_ignore',
                'BlocksParser::parse', 'PatchSet::from_str', 'Path::is_dir', 'ignore::Walk::new', 'DirEntry::path', 'std::fs::read_to_string'],
-        must_cover=['main', 'scope-paths', 'diffpath', 'removed', 'diff-orders', 'root', 'walk', 'globs'],
+        must_cover=['main', 'scope-paths', 'diffpath', 'removed', 'first line deleted (-U0)', 'diff-orders', 'root', 'walk', 'globs'],
         explanation='per path: for every file, PC∧in_scope∧not read, PC∧¬in_scope∧read, read twice; diff key vs target minus one b/')
 
 
